@@ -26,15 +26,23 @@ class StorageView:
         if self.storage == 'default' and self.prefix == DEFAULT_PREFIX:
             self.finalizer = DEFAULT_FINALIZER
 
-    def ann_key(self, hid: str) -> str:
+    @staticmethod
+    def mark(body: dict[str, Any] | None) -> str:
+        """The documented collision-evading suffix of the annotation names of a ReplicaSet that is owned by a Deployment (which copies its annotations onto it)."""
+        if body is None or body.get('kind') != 'ReplicaSet':
+            return ''
+        owners = (body.get('metadata') or {}).get('ownerReferences') or []
+        return '-ofDRS' if any(o.get('kind') == 'Deployment' for o in owners) else ''
+
+    def ann_key(self, hid: str, body: dict[str, Any] | None = None) -> str:
         safe = hid.replace('/', '.').replace('<', '_').replace('>', '_')
-        return f'{self.prefix}/{safe}'
+        return f'{self.prefix}/{safe}{self.mark(body)}'
 
     def record(self, body: dict[str, Any] | None, hid: str) -> dict[str, Any] | None:
         if body is None:
             return None
         if self.in_annotations:
-            raw = ((body.get('metadata') or {}).get('annotations') or {}).get(self.ann_key(hid))
+            raw = ((body.get('metadata') or {}).get('annotations') or {}).get(self.ann_key(hid, body))
             if raw is not None:
                 try:
                     return json.loads(raw)
@@ -62,7 +70,7 @@ class StorageView:
         found = []
         if self.in_annotations:
             for k in ((body.get('metadata') or {}).get('annotations') or {}):
-                if k.startswith(self.prefix + '/') and k.split('/', 1)[1] not in (
+                if k.startswith(self.prefix + '/') and k.split('/', 1)[1].removesuffix('-ofDRS') not in (
                         'last-handled-configuration', 'touch-dummy', 'kopf-managed'):
                     found.append(k)
         else:
@@ -73,7 +81,7 @@ class StorageView:
         if body is None:
             return None
         if self.in_annotations:
-            raw = ((body.get('metadata') or {}).get('annotations') or {}).get(f'{self.prefix}/last-handled-configuration')
+            raw = ((body.get('metadata') or {}).get('annotations') or {}).get(f'{self.prefix}/last-handled-configuration{self.mark(body)}')
             if raw is not None:
                 return json.loads(raw)
             if self.storage == 'smart':
